@@ -108,6 +108,56 @@ theorem hlslTarget_fake (bm : BMap) (g : Global) (h : bm.find g = none) (hf : bm
 theorem hlslTarget_missing (bm : BMap) (g : Global) (h : bm.find g = none) (hf : bm.fake = false) :
     hlslTarget bm g = none := by simp [hlslTarget, h, hf]
 
+/-! ### MSL automatic slot assignment (no map supplied) -/
+
+theorem keyLt_irrefl (a : Global) : keyLt a a = false := by simp [keyLt]
+
+theorem keyLt_trans (a b c : Global) (h1 : keyLt a b = true) (h2 : keyLt b c = true) : keyLt a c = true := by
+  simp only [keyLt, Bool.or_eq_true, Bool.and_eq_true, decide_eq_true_eq, beq_iff_eq] at *
+  omega
+
+/-- (group, binding) pairs are totally ordered -/
+theorem keyLt_total (a b : Global) (h : (a.group, a.binding) ≠ (b.group, b.binding)) : keyLt a b = true ∨ keyLt b a = true := by
+  simp only [keyLt, Bool.or_eq_true, Bool.and_eq_true, decide_eq_true_eq, beq_iff_eq]
+  have : a.group ≠ b.group ∨ a.binding ≠ b.binding := by
+    by_cases hg : a.group = b.group
+    · right; intro hb; exact h (by rw [hg, hb])
+    · left; exact hg
+  omega
+
+theorem countP_lt_of_witness {α} (p q : α → Bool) (a : α) : ∀ (l : List α), (∀ x, p x = true → q x = true) → a ∈ l →
+    p a = false → q a = true → l.countP p < l.countP q
+  | [], _, hm, _, _ => by simp at hm
+  | x :: xs, hpq, hm, hpa, hqa => by
+    have hle : xs.countP p ≤ xs.countP q := List.countP_mono_left (fun y _ => hpq y)
+    rcases List.mem_cons.mp hm with rfl | hm'
+    · simp only [List.countP_cons, hpa, hqa]; simp; omega
+    · have ih := countP_lt_of_witness p q a xs hpq hm' hpa hqa
+      simp only [List.countP_cons]
+      by_cases hx : p x = true
+      · simp [hx, hpq x hx]; omega
+      · have hx' : p x = false := by simpa using hx
+        simp only [hx']; cases q x <;> simp <;> omega
+
+/-- the automatic slots follow the (group, binding) order strictly … -/
+theorem autoSlot_mono (rs : List Global) (a b : Global) (ha : a ∈ rs) (h : keyLt a b = true) :
+    autoSlot rs a < autoSlot rs b :=
+  countP_lt_of_witness _ _ a rs (fun x hx => keyLt_trans x a b hx h) ha (keyLt_irrefl a) h
+
+/-- … so two resources with different (group, binding) never share a slot, -/
+theorem autoSlot_injective (rs : List Global) (a b : Global) (ha : a ∈ rs) (hb : b ∈ rs)
+    (h : (a.group, a.binding) ≠ (b.group, b.binding)) : autoSlot rs a ≠ autoSlot rs b := by
+  rcases keyLt_total a b h with h1 | h1
+  · exact Nat.ne_of_lt (autoSlot_mono rs a b ha h1)
+  · exact (Nat.ne_of_lt (autoSlot_mono rs b a hb h1)).symm
+
+/-- … and the slots are dense: each is below the number of bound globals. -/
+theorem autoSlot_lt (rs : List Global) (a : Global) (ha : a ∈ rs) : autoSlot rs a < rs.length := by
+  have := countP_lt_of_witness (fun r => keyLt r a) (fun _ => true) a rs (fun _ _ => rfl) ha (keyLt_irrefl a) rfl
+  simpa [autoSlot] using this
+
+example : autoSlot [⟨"a", "uniform", 3, 1⟩, ⟨"b", "uniform", 2, 0⟩, ⟨"c", "uniform", 3, 5⟩] ⟨"a", "uniform", 3, 1⟩ = 1 := by decide
+
 /-- Non-vacuity: a module in which a resource is reached only through a two-step call chain. -/
 def exMod : Mod :=
   { globals := [⟨"g0", "storage_rw", 1, 2⟩, ⟨"g1", "uniform", 0, 0⟩],
